@@ -279,9 +279,10 @@ class _App:
         self.added += 1
         ident = _tid(event.transfer)
         self.ghost.added_reported(ident)
-        rec = self.pend.get(('add', ident))
-        if rec is not None and rec.transfer is event.transfer:
-            await self._gate(rec, 'added')
+        for rec in self.pend.get(('add', ident), []):          # add() calls suspended for this identity, oldest first
+            if rec.transfer is event.transfer:
+                await self._gate(rec, 'added')
+                break
 
     async def on_removed(self, event):
         self.removed += 1
@@ -431,6 +432,10 @@ async def _run_ops(loop, case: dict, tmp: str):
         keep.extend(app.pend.values())
         app.pend.clear()
 
+    def pending_recs():
+        for key, v in app.pend.items():
+            yield from (v if key[0] == 'add' else [v])
+
     def finish_rm(ident, rec):
         """outcome of a remove() task that is no longer (or not yet again) suspended"""
         n = len(mgr.transfers)
@@ -469,21 +474,20 @@ async def _run_ops(loop, case: dict, tmp: str):
                 ident = _tid(t)
                 trace.append({'op': k})
                 ghost.add_called(ident)
-                if k == 'add' or ('add', ident) in app.pend:
+                if k == 'add':
                     r = await mgr.add(t)
                     ghost.add_returned(ident, r is t)
-                    if k == 'add':
-                        obs.append(f'ok {len(mgr.transfers)} {app.added}')
-                    else:
-                        obs.append(f'{"dup" if r is not t else "ungated"} {len(mgr.transfers)} {app.added}')
+                    obs.append(f'ok {len(mgr.transfers)} {app.added}')
                 else:
                     rec = _Pend()
                     rec.transfer = t
-                    app.pend[('add', ident)] = rec
+                    app.pend.setdefault(('add', ident), []).append(rec)
                     rec.task = loop.create_task(mgr.add(t))
                     await simloop.settle()
                     if rec.task.done():
-                        del app.pend[('add', ident)]
+                        app.pend[('add', ident)].remove(rec)
+                        if not app.pend[('add', ident)]:
+                            del app.pend[('add', ident)]
                         r = rec.task.result()
                         ghost.add_returned(ident, r is t)
                         obs.append(f'{"dup" if r is not t else "returned"} {len(mgr.transfers)} {app.added}')
@@ -492,14 +496,17 @@ async def _run_ops(loop, case: dict, tmp: str):
             elif k == 'addr':
                 ident = (op[1], op[2], op[3])
                 trace.append({'op': 'addr'})
-                rec = app.pend.get(('add', ident))
-                if rec is None:
+                recs = app.pend.get(('add', ident))
+                if not recs:
                     obs.append('no-pending')
                 else:
+                    rec = recs[0]
                     rec.gate.set_result(None)
                     await simloop.settle()
                     if rec.task.done():
-                        del app.pend[('add', ident)]
+                        recs.remove(rec)
+                        if not recs:
+                            del app.pend[('add', ident)]
                         r = rec.task.result()
                         ghost.add_returned(ident, r is rec.transfer)
                         obs.append(f'ok {len(mgr.transfers)}')
@@ -625,7 +632,7 @@ async def _run_ops(loop, case: dict, tmp: str):
 
     # whatever is still suspended in the live manager resumes (a suspended abort holds the transfer's state lock)
     for _ in range(8):
-        recs = [r for r in app.pend.values() if r.gate is not None and not r.gate.done()]
+        recs = [r for r in pending_recs() if r.gate is not None and not r.gate.done()]
         if not recs:
             break
         for r in recs:
